@@ -226,6 +226,22 @@ check('C17',
       'machine-checked proof in Coq of a model over abstract arrays and ufuncs + correspondence run (vm_compute) + bit-exact value monitor',
       'DESIGN.md 5 C17')
 
+check('C16',
+      'Coq theorems (Props/C16.v, axiom-free) about Model/Contract.v, which follows Signal.__init__ and the setters of every class check '
+      'by check over abstract argument kinds, with the per-class tables (_req_shape, _req_dtype, constructor signatures) GENERATED from '
+      'core.py by translator T2 on every run: whatever a constructor returns satisfies the executable contract WF (enough dimensions, fixed '
+      'axis lengths, non-empty sample shape, dtype from the class set, positive scalar frequency sample_rate / chan_bw, scalar frequency '
+      'center_freq, scalar-Time-or-None start_time, dict-or-None meta, alignment normalised for odd channel counts, polarisation type from '
+      'its set, baseband chan_bw = sample_rate); an object is returned only if no clause is violated; like() reproduces a well-formed '
+      'signal exactly; the generated tables say 4 Stokes / 2 polarisations / float resp. complex dtype sets / no chan_bw parameter for '
+      'baseband classes. The model is evaluated (vm_compute) on every attempted construction and compared with the constructor; WF itself '
+      'is evaluated on the observed attributes of every signal the run sees, including those returned by library operations; copies '
+      '(like, pickle, cloudpickle, dask helpers) are compared attribute by attribute.',
+      'Trusted: Coq kernel; translator T2; numpy can_cast(safe) as transcribed (validated); data arguments are array objects. Known finding '
+      'D23: rechunk() with default chunks raises on a zero-length signal (dask auto-chunking).',
+      'machine-checked proof in Coq over tables regenerated from source (T2) + correspondence run (vm_compute) + contract monitor',
+      'DESIGN.md 5 C16')
+
 ALL = [f'C{i:02d}' for i in range(1, 21)]
 
 def main():
